@@ -60,12 +60,12 @@ func leavesOf(v ssa.Value) []ssa.Value {
 
 // decodedLoad: v is a load of a field (selector suffix sel) of a registered
 // connection layer, executed after the decode call on this path.
-func decodedLoad(v ssa.Value, sel string, idx map[ssa.Instruction]int, decodeAt int) bool {
+func decodedLoad(p CPath, v ssa.Value, sel string, idx map[ssa.Instruction]int, decodeAt int) bool {
 	ld, ok := v.(*ssa.UnOp)
 	if !ok || ld.Op != token.MUL {
 		return false
 	}
-	if !strings.HasSuffix(apOf(ld.X).SelString(), sel) {
+	if !strings.HasSuffix(p.AP(ld.X).SelString(), sel) {
 		return false
 	}
 	at, ok := idx[ld]
@@ -77,21 +77,14 @@ func decodedLoad(v ssa.Value, sel string, idx map[ssa.Instruction]int, decodeAt 
 // holds on at least one leaf and on no leaf is a post-decode load of the same
 // layer; the arm taken is the one where the two are equal.
 func passedEquality(p CPath, idx map[ssa.Instruction]int, decodeAt int, layerSel string, other func(leaf ssa.Value) bool) (bool, *ssa.If) {
-	for _, tk := range p.Ifs() {
-		ifi := tk.If
-		op, x, y, neg, isBin := condOf(ifi.Cond)
-		if !isBin || (op != token.EQL && op != token.NEQ) {
+	for _, rel := range p.relations() {
+		if rel.Op != token.EQL {
 			continue
 		}
-		arm := tk.Arm
-		if neg {
-			arm = !arm
-		}
-		equalArm := (op == token.EQL && arm) || (op == token.NEQ && !arm)
-		for _, pair := range [][2]ssa.Value{{x, y}, {y, x}} {
+		for _, pair := range [][2]ssa.Value{{rel.X, rel.Y}, {rel.Y, rel.X}} {
 			lhsOK := false
-			for _, l := range leavesOf(pair[0]) {
-				if decodedLoad(l, layerSel, idx, decodeAt) {
+			for _, l := range pathLeaves(p, pair[0]) {
+				if decodedLoad(p, l, layerSel, idx, decodeAt) {
 					lhsOK = true
 				}
 			}
@@ -99,17 +92,51 @@ func passedEquality(p CPath, idx map[ssa.Instruction]int, decodeAt int, layerSel
 				continue
 			}
 			rhsOK := false
-			for _, l := range leavesOf(pair[1]) {
+			for _, l := range pathLeaves(p, pair[1]) {
 				if other(l) {
 					rhsOK = true
 				}
 			}
-			if rhsOK && equalArm {
-				return true, ifi
+			if rhsOK {
+				return true, rel.If
 			}
 		}
 	}
 	return false, nil
+}
+
+// pathLeaves is leavesOf with every value resolved on the path first (phis,
+// parameters and results of spliced helpers).
+func pathLeaves(p CPath, v ssa.Value) []ssa.Value {
+	var out []ssa.Value
+	seen := map[ssa.Value]bool{}
+	var walk func(ssa.Value)
+	walk = func(x ssa.Value) {
+		x = p.Resolve(x)
+		if seen[x] {
+			return
+		}
+		seen[x] = true
+		switch y := x.(type) {
+		case *ssa.BinOp:
+			walk(y.X)
+			walk(y.Y)
+		case *ssa.Convert:
+			walk(y.X)
+		case *ssa.ChangeType:
+			walk(y.X)
+		case *ssa.UnOp:
+			if y.Op == token.MUL {
+				out = append(out, x)
+			} else {
+				walk(y.X)
+			}
+		default:
+			out = append(out, x)
+		}
+	}
+	walk(v)
+	return out
 }
 
 func decodeIndex(p CPath, idx map[ssa.Instruction]int) int {
@@ -139,13 +166,13 @@ func checkC11(c *Ctx, r *Report) {
 			r.Unk(fname+"|loop", s.Fn.Pos(), "loop in closure")
 			continue
 		}
-		reqDerived := func(idx map[ssa.Instruction]int, decodeAt int) func(ssa.Value) bool {
+		reqDerived := func(p CPath, idx map[ssa.Instruction]int, decodeAt int) func(ssa.Value) bool {
 			return func(l ssa.Value) bool {
 				ld, ok := l.(*ssa.UnOp)
 				if !ok || ld.Op != token.MUL {
 					return false
 				}
-				a := apOf(ld.X)
+				a := p.AP(ld.X)
 				// field of the value returned by c.Operation()
 				if call, ok := a.Root.(*ssa.Call); ok && call.Call.IsInvoke() && call.Call.Method.Name() == "Operation" {
 					return true
@@ -184,7 +211,7 @@ func checkC11(c *Ctx, r *Report) {
 			label := exitLabel(p)
 			for _, fld := range []string{"Function", "Command"} {
 				r.Rule("reply-matches-request", "a reply's completion code is used only if the decoded message's NetFn and command were compared equal with the request's", 4)
-				ok, _ := passedEquality(p, idx, decodeAt, fMsg+"."+fld, reqDerived(idx, decodeAt))
+				ok, _ := passedEquality(p, idx, decodeAt, fMsg+"."+fld, reqDerived(p, idx, decodeAt))
 				r.Check(ok, fname+"|"+fld+"|path "+label, s.Send.Pos(), "decoded "+fld+" compared with the request's on this path", "the reply's "+fld+" is never compared with the request's before its completion code is used: a reply to another command is taken as this command's response")
 			}
 		})
